@@ -1,14 +1,19 @@
 package c12
 
 import (
+	"bytes"
+	"encoding/binary"
 	"math/big"
+	"math/rand"
 	"testing"
 	"time"
 
 	"github.com/idena-network/idena-go/blockchain/types"
 	"github.com/idena-network/idena-go/consensus"
 	"github.com/idena-network/idena-go/core/state"
+	"github.com/idena-network/idena-go/protocol"
 	"github.com/idena-network/idena-go/stats/collector"
+	"github.com/klauspost/compress/s2"
 
 	"verifharness/internal/evid"
 	"verifharness/internal/sim"
@@ -181,5 +186,37 @@ func TestRegressionProposerProofOfPoolTerminates(t *testing.T) {
 	evid.Eval()
 	if !returnsWithin(20*time.Second, func() { n.proposals().AddProposeProof(pp) }) {
 		t.Fatalf("Proposals.AddProposeProof(proof that does not verify, signed by a pool) does not return")
+	}
+}
+
+// Failure found by TestFrames (hypothesis H4): protocol.Decode hands a compressed
+// frame to s2.Decode(nil, ...), which allocates the decoded length CLAIMED by the
+// block header before looking at any data. The transport caps the compressed
+// frame (8 MiB) only, so a 10-byte frame makes the receiver allocate and zero
+// 256 MiB (up to 4 GiB - 1 with the largest claim a 64-bit build accepts).
+func TestRegressionDecodeForgedLength(t *testing.T) {
+	for _, claim := range []uint64{1 << 28, 1<<28 + 1<<27} {
+		var v [10]byte
+		n := binary.PutUvarint(v[:], claim)
+		frame := append(append([]byte{1}, v[:n]...), 0xde, 0xad, 0xbe, 0xef)
+		evid.Eval()
+		var err error
+		o := guard("protocol.Decode", func() string { return "" }, func() { _, err = protocol.Decode(frame) })
+		if o.panicked {
+			t.Fatalf("protocol.Decode panicked: %v", o.val)
+		}
+		if o.alloc > allocCap {
+			t.Fatalf("protocol.Decode(% x) allocated %d MiB for a %d-byte frame claiming a decoded length of %d (verdict: %v); cap for any frame up to 8 MiB: %d MiB", frame, o.alloc>>20, len(frame), claim, err, allocCap>>20)
+		}
+	}
+	// what a correct peer can send still decodes: 6 MiB of incompressible content, compressed and plain
+	msg := make([]byte, 6<<20)
+	rand.New(rand.NewSource(1)).Read(msg)
+	for _, frame := range [][]byte{append([]byte{1}, s2.Encode(nil, msg)...), append([]byte{0}, msg...)} {
+		evid.Eval()
+		out, err := protocol.Decode(frame)
+		if err != nil || !bytes.Equal(out, msg) {
+			t.Fatalf("a %d-byte frame of a correct sender does not decode: %v", len(frame), err)
+		}
 	}
 }
